@@ -139,6 +139,11 @@ mut("c11_threshold", ["C11", "C02", "C01"], C,
         alignments_disorders: np.ndarray = disorders[chosen_alignments_ids]
 
         from .alignment import UnitaryAlignment, SoftAlignment"""), note="soft decoding drops the last chosen unitary alignment when more than 4")
+mut("c02_buffer_growth_loses_value", ["C02", "C01"], "pygamma_agreement/numba_utils.py",
+    ("""    new_array = np.empty(len(arr) + n, dtype=np.float32)
+    new_array[:len(arr)] = arr""", """    new_array = np.zeros(len(arr) + n, dtype=np.float32)
+    new_array[:len(arr) - 1] = arr[:len(arr) - 1]"""),
+    note="the disorder of the candidate at a buffer-growth boundary (10000th, 15000th ...) becomes 0: only continua with > 10000 candidates")
 # ---------------- C10 ----------------
 mut("c10_revert_progress_fix", ["C10"], A,
     ("""            if i > 0 and unitary_alignment.bounds[1] > x_limit:""", """            if unitary_alignment.bounds[1] > x_limit:"""))
